@@ -12,6 +12,7 @@ import (
 	"math"
 	"math/big"
 	"os"
+	"runtime"
 	"sort"
 
 	"verif/harness/hx"
@@ -1008,6 +1009,32 @@ func boundaryCounts(max int) []int {
 	return out
 }
 
+// ladderMesh: the large-mesh shapes of the size ladder.  Every shape has per-vertex distinct positions and normals
+// that change from triangle to triangle (vnum), so a record taken from the wrong triangle, or left empty, shows.
+func ladderMesh(r *hx.Rng, n, shape int, seed uint64) bigMeshDesc {
+	d := bigMeshDesc{N: n, Seed: seed, NDir: r.Intn(6), Part: r.Intn(3)}
+	if r.Chance(1, 5) && n > 5000 {
+		d.NDir = -1 // no Normal attribute
+	}
+	switch shape % 4 {
+	case 0:
+		d.NV, d.A, d.Note = 3*n+d.Part, 1, "ladder: unwelded identity"
+	case 1:
+		// triangle t uses vertices t, t+1, t+2: a strip, every vertex shared by three triangles
+		d.NV, d.A, d.B, d.Note = n+2, 1, n, "ladder: welded strip"
+	case 2:
+		d.NV, d.A, d.C, d.Note = 3*n+d.Part, 3*n+d.Part-1, 3*n+d.Part-1, "ladder: unwelded, reversed (as many indices as vertices)"
+	default:
+		d.NV, d.A, d.B, d.C, d.Note = n, 1+r.Intn(7), r.Intn(3), r.Intn(n), "ladder: welded, as many vertices as triangles"
+	}
+	return d
+}
+
+// bigCases: the size ladder.  Internal limits of the code (the reader's 4096-record chunk today, batch sizes,
+// parallel thresholds, per-CPU ranges tomorrow) sit at powers of two and at multiples of the CPU count: meshes and
+// files with 2^12 ... 2^17 triangles (each -1 / 0 / +1) and NumCPU multiples +-1 are walked, welded and unwelded
+// alternating, one reader kind per rung.  quick: one mesh and one file per rung up to 2^15 (at the rung or one above)
+// plus the chunk-boundary trio; thorough: all three neighbours up to 2^15, one each for 2^16 and 2^17, NumCPU rungs.
 func bigCases(run *hx.Run, r *hx.Rng) []hx.Case {
 	var out []hx.Case
 	thorough := run.Tier == "thorough"
@@ -1019,6 +1046,9 @@ func bigCases(run *hx.Run, r *hx.Rng) []hx.Case {
 		if d.Cut > 0 {
 			run.Count("bigfile:cut-short")
 		}
+		if d.Kind != "" {
+			run.Count("reader-big:" + d.Kind)
+		}
 		out = append(out, bigFileCase(d))
 	}
 	mesh := func(d bigMeshDesc) {
@@ -1026,76 +1056,78 @@ func bigCases(run *hx.Run, r *hx.Rng) []hx.Case {
 		out = append(out, bigMeshCase(d))
 	}
 	seed := func() uint64 { return uint64(r.Intn(60000)) }
-	// always: the reader's chunk size and its neighbours, one and two chunks plus a remainder
-	for _, n := range []int{4095, 4096, 4097, 8193} {
-		file(bigFileDesc{N: n, Seed: seed(), Note: "chunk boundary"})
+	rs := func(k string) readerSpec {
+		return readerSpec{Kind: k, RSeed: uint64(r.Intn(1 << 20))}
 	}
+	// the reader's chunk size and its neighbours (the model itself is executed on these: n <= exec_limit)
+	file(bigFileDesc{N: 4095, Seed: seed(), Note: "chunk boundary"})
+	file(bigFileDesc{N: 4096, Seed: seed(), Extra: 1 + r.Intn(60), Note: "chunk boundary, trailing bytes"})
+	file(bigFileDesc{N: 4097, Seed: seed(), Cut: 1 + r.Intn(49), Note: "chunk boundary, last record cut short"})
 	if thorough {
+		file(bigFileDesc{N: 4096, Seed: seed(), Note: "chunk boundary"})
 		file(bigFileDesc{N: 4097, Seed: seed(), ZN: true, Note: "chunk boundary, zero normals"})
 	}
-	file(bigFileDesc{N: 4097, Seed: seed(), Cut: 1 + r.Intn(49), Note: "chunk boundary, last record cut short"})
-	file(bigFileDesc{N: 4096, Seed: seed(), Extra: 1 + r.Intn(60), Note: "chunk boundary, trailing bytes"})
-	counts := boundaryCounts(20000)
-	pickN := 2
+	kinds := append([]string{}, wholeReaders...)
+	kp := r.Perm(len(kinds))
+	shape0 := r.Intn(4)
+	rung := 0
+	step := func(n int, via bool) {
+		m := ladderMesh(r, n, shape0+rung, seed())
+		if via {
+			m.Via = "file"
+		}
+		mesh(m)
+		f := bigFileDesc{N: n, Seed: seed(), ZN: r.Chance(1, 5), Note: "ladder", readerSpec: rs(kinds[kp[rung%len(kinds)]])}
+		if rung == 0 && !thorough {
+			f.readerSpec = rs("half") // one rung's file is within exec_limit: the model runs on it
+		}
+		file(f)
+		rung++
+	}
+	run.Extra["num_cpu"] = runtime.NumCPU()
+	for e := 12; e <= 15; e++ {
+		p := 1 << e
+		if thorough {
+			for _, d := range []int{-1, 0, 1} {
+				step(p+d, false)
+			}
+		} else {
+			step(p+r.Intn(2), e == 13)
+		}
+	}
 	if thorough {
-		pickN = len(counts)
-	}
-	for _, k := range r.Perm(len(counts))[:pickN] {
-		n := counts[k]
-		if !thorough && n > 13000 {
-			n = n%8192 + 4096 // quick: keep the evaluation cheap, still beyond one chunk
+		step(1<<16+r.Range(-1, 1), true)
+		step(1<<17+r.Range(-1, 1), false)
+		// contiguous per-CPU ranges: sizes that are a multiple of the CPU count, one below and one above
+		c := runtime.NumCPU()
+		for _, k := range []int{5000 / c, 20000 / c, 40000 / c} {
+			for _, d := range []int{-1, 0, 1} {
+				step(k*c+d, false)
+			}
 		}
-		file(bigFileDesc{N: n, Seed: seed(), ZN: r.Chance(1, 4), Note: "power of two / chunk multiple +-1"})
-	}
-	extra := 1
-	if thorough {
-		extra = 24
-		file(bigFileDesc{N: 20000, Seed: seed(), Note: "largest"})
-		file(bigFileDesc{N: 5000, Seed: seed(), Note: "between chunks"})
-	}
-	for i := 0; i < extra; i++ {
-		d := bigFileDesc{N: 4097 + r.Intn(9000), Seed: seed(), ZN: r.Chance(1, 4), Note: "random count beyond one chunk"}
-		switch r.Intn(4) {
-		case 0:
-			d.Extra = 1 + r.Intn(120)
-		case 1:
-			d.Cut = 1 + r.Intn(50*d.N)
+		// failing readers far into a large file, trailing bytes, random counts, all reader kinds around one chunk
+		for _, k := range wholeReaders {
+			file(bigFileDesc{N: 4097 + r.Intn(100), Seed: seed(), Note: "reader grid, beyond one chunk", readerSpec: rs(k)})
 		}
-		file(d)
-	}
-	// meshes: unwelded identity, permuted (as many indices as vertices), welded over few vertices,
-	// as many vertices as triangles, three indices per vertex
-	ndir := func() int { return r.Range(-1, 5) }
-	mesh(bigMeshDesc{N: 4097, NV: 3 * 4097, A: 1, Seed: seed(), NDir: r.Intn(6), Note: "unwelded identity, with normals"})
-	mesh(bigMeshDesc{N: 4097 + r.Intn(200), NV: 97, A: 5, B: 1, C: 2, Seed: seed(), NDir: r.Intn(6), Via: "file", Note: "welded, with normals, through stl.Save / stl.Load"})
-	mesh(bigMeshDesc{N: 4096, NV: 3 * 4096, A: 3*4096 - 1, C: 3*4096 - 1, Seed: seed(), NDir: ndir(), Note: "reversed: as many indices as vertices"})
-	mesh(bigMeshDesc{N: 4097, NV: 61, A: 7, B: 1, C: 3, Part: r.Intn(3), Seed: seed(), NDir: ndir(), Note: "welded over few vertices"})
-	mesh(bigMeshDesc{N: 4099, NV: 4099, A: 5, B: 2, C: 1, Seed: seed(), NDir: ndir(), Note: "as many vertices as triangles"})
-	nm := 1
-	if thorough {
-		nm = 30
-	}
-	for i := 0; i < nm; i++ {
-		n := counts[r.Intn(len(counts))]
-		if !thorough && n > 9000 {
-			n = n%4096 + 4096
+		for i := 0; i < 12; i++ {
+			d := bigFileDesc{N: 4097 + r.Intn(16000), Seed: seed(), ZN: r.Chance(1, 4), Note: "random count beyond one chunk"}
+			switch r.Intn(4) {
+			case 0:
+				d.Extra = 1 + r.Intn(120)
+			case 1:
+				d.Cut = 1 + r.Intn(50*d.N)
+			}
+			file(d)
 		}
-		d := bigMeshDesc{N: n, Seed: seed(), NDir: ndir(), Part: r.Intn(3)}
-		switch r.Intn(5) {
-		case 0:
-			d.NV, d.A, d.Note = 3*n, 1, "unwelded identity"
-		case 1:
-			d.NV, d.A, d.C, d.Note = 3*n+d.Part, 3*n+d.Part-1, 3*n+d.Part-1, "reversed: as many indices as vertices"
-		case 2:
-			d.NV, d.A, d.B, d.C, d.Note = n, 1+r.Intn(7), r.Intn(3), r.Intn(n), "as many vertices as triangles"
-		case 3:
-			d.NV, d.A, d.B, d.C, d.Note = 3*n, 1+2*r.Intn(4), r.Intn(3), r.Intn(3*n), "strided: as many indices as vertices"
-		default:
-			d.NV = r.Range(1, 200)
-			d.A, d.B, d.C, d.Note = 1+r.Intn(9), r.Intn(5), r.Intn(d.NV), "welded over few vertices"
+		for i := 0; i < 12; i++ {
+			mesh(ladderMesh(r, 4097+r.Intn(16000), r.Intn(4), seed()))
 		}
-		mesh(d)
+		mesh(bigMeshDesc{N: 4097, NV: 61, A: 7, B: 1, C: 3, Part: r.Intn(3), Seed: seed(), NDir: r.Range(-1, 5), Note: "welded over few vertices"})
+		mesh(bigMeshDesc{N: 5000, NV: 15000, A: 1, Seed: seed(), NDir: -1, Note: "unwelded, no normals"})
+	} else {
 	}
+	file(bigFileDesc{N: 4201 + r.Intn(100), Seed: seed(), Note: "reader fails inside the second chunk",
+		readerSpec: readerSpec{Kind: "errafter", RSeed: uint64(r.Intn(1 << 20)), FailAt: 84 + 50*4096 + r.Intn(50)}})
 	return out
 }
 
@@ -1189,7 +1221,7 @@ func main() {
 		small = append(small, meshCase(d))
 	}
 	for i, d := range shapeDescs() {
-		if i%7 == 3 { // the same shapes through stl.Save / stl.Load on a file
+		if i%14 == 3 { // the same shapes through stl.Save / stl.Load on a file
 			d.Via = "file"
 			run.Count("shape-stream:via-save-load")
 			small = append(small, meshCase(d))
